@@ -655,6 +655,13 @@ func (s *levelsController) subcompact(it y.Iterator, kr keyRange, cd compactDef,
 	// Check overlap of the top level with the levels which are not being
 	// compacted in this compaction.
 	hasOverlap := s.checkOverlap(cd.allTables(), cd.nextLevel.level+1)
+	// An L0 -> L0 compaction merges only some of the L0 tables. The ones it leaves out (big,
+	// recently created, or being compacted to the base level) can hold older versions of the
+	// same keys, and checkOverlap does not look at L0. Keep delete/expired markers in that
+	// case; a later L0 -> Lbase compaction drops them.
+	if cd.thisLevel.level == 0 && cd.nextLevel.level == 0 {
+		hasOverlap = true
+	}
 
 	// Pick a discard ts, so we can discard versions below this ts. We should
 	// never discard any versions starting from above this timestamp, because
